@@ -171,10 +171,13 @@ func extractInputs(ex *Exec, ob *Obligation, query, solver, tag string) (map[str
 				strs = append(strs, strReq{idx: i, arr: arr, off: pv.C[1], ln: pv.C[2], isSlice: true})
 				scalarTerms = append(scalarTerms, pv.C[1], pv.C[2])
 			} else {
-				return inputs, nil, false, "parameter " + ob.Entry.names[i] + " of type " + pv.T.String()
+				// other slices: only the length is taken from the model
+				scalarTerms = append(scalarTerms, pv.C[2])
 			}
+		case *types.Pointer:
+			scalarTerms = append(scalarTerms, pv.C[0])
 		default:
-			return inputs, nil, false, "parameter " + ob.Entry.names[i] + " of type " + pv.T.String()
+			// interfaces, maps, funcs...: a zero value is used
 		}
 	}
 	for _, t := range scalarTerms {
@@ -272,18 +275,78 @@ func extractInputs(ex *Exec, ob *Obligation, query, solver, tag string) (map[str
 				lits = append(lits, convLit(pv.T, f, fnPkgOf(ob.Entry.fn)))
 			}
 		case *types.Slice:
-			sp := spans[i]
-			var bs []byte
-			for _, n := range byteNames[sp.lo:sp.hi] {
-				v, _ := parseSMTInt(bvals[n])
-				bs = append(bs, byte(v))
+			if b, ok := u.Elem().Underlying().(*types.Basic); ok && b.Kind() == types.Uint8 && ex.oldState != nil {
+				sp := spans[i]
+				var bs []byte
+				for _, n := range byteNames[sp.lo:sp.hi] {
+					v, _ := parseSMTInt(bvals[n])
+					bs = append(bs, byte(v))
+				}
+				lit := "[]byte(" + goBytesString(bs) + ")"
+				inputs[name] = lit
+				lits = append(lits, lit)
+				break
 			}
-			lit := "[]byte(" + goBytesString(bs) + ")"
-			inputs[name] = lit
+			n, _ := parseSMTInt(vals[show(pv.C[2])])
+			if n > 64 {
+				n = 64
+			}
+			ts := typeText(pv.T, fnPkgOf(ob.Entry.fn))
+			var elems []string
+			for k := int64(0); k < n; k++ {
+				elems = append(elems, defaultLit(u.Elem(), fnPkgOf(ob.Entry.fn), true))
+			}
+			lit := ts + "{" + strings.Join(elems, ", ") + "}"
+			inputs[name] = fmt.Sprintf("%s (length %d from model, default elements)", ts, n)
+			lits = append(lits, lit)
+		case *types.Pointer:
+			ref, _ := parseSMTInt(vals[show(pv.C[0])])
+			lit := defaultLit(pv.T, fnPkgOf(ob.Entry.fn), ref != 0)
+			inputs[name] = lit + " (default object)"
+			lits = append(lits, lit)
+		default:
+			lit := defaultLit(pv.T, fnPkgOf(ob.Entry.fn), false)
+			inputs[name] = lit + " (default)"
 			lits = append(lits, lit)
 		}
 	}
 	return inputs, lits, true, ""
+}
+
+func typeText(t types.Type, pkg *types.Package) string {
+	return types.TypeString(t, func(p *types.Package) string {
+		if p == pkg {
+			return ""
+		}
+		return p.Name()
+	})
+}
+
+// defaultLit builds a plausible default Go value of type t for replay.
+func defaultLit(t types.Type, pkg *types.Package, nonNil bool) string {
+	ts := typeText(t, pkg)
+	switch ts {
+	case "*bufio.Reader":
+		return "bufio.NewReader(strings.NewReader(\"\"))"
+	case "*bufio.Writer":
+		return "bufio.NewWriter(io.Discard)"
+	}
+	switch u := t.Underlying().(type) {
+	case *types.Pointer:
+		if !nonNil {
+			return "(" + ts + ")(nil)"
+		}
+		return "new(" + typeText(u.Elem(), pkg) + ")"
+	case *types.Basic:
+		if u.Info()&types.IsString != 0 {
+			return ts + "(\"\")"
+		}
+		if u.Info()&types.IsBoolean != 0 {
+			return ts + "(false)"
+		}
+		return ts + "(0)"
+	}
+	return "*new(" + ts + ")"
 }
 
 func fnPkgOf(fn *ssa.Function) *types.Package {
@@ -373,7 +436,7 @@ func parseSMTFloat(s string) (string, bool) {
 
 func genReplayTest(fn *ssa.Function, lits []string, ob *Obligation) string {
 	var sb strings.Builder
-	fmt.Fprintf(&sb, "package %s\n\nimport (\n\t\"fmt\"\n\t\"math\"\n\t\"runtime/debug\"\n\t\"testing\"\n)\n\nvar _ = math.Abs\n\n", fn.Pkg.Pkg.Name())
+	fmt.Fprintf(&sb, "package %s\n\nimport (\n\t\"bufio\"\n\t\"fmt\"\n\t\"io\"\n\t\"math\"\n\t\"runtime/debug\"\n\t\"strings\"\n\t\"testing\"\n)\n\nvar _ = math.Abs\nvar _ = bufio.NewReader\nvar _ = io.Discard\nvar _ = strings.NewReader\n\n", fn.Pkg.Pkg.Name())
 	fmt.Fprintf(&sb, "// generated by govc for obligation %s\n", ob.Name)
 	sb.WriteString("func TestGovcReplay(t *testing.T) {\n")
 	sb.WriteString("\tdefer func() {\n\t\tif r := recover(); r != nil {\n\t\t\tfmt.Printf(\"GOVC-REPLAY: PANIC %v\\n%s\\n\", r, debug.Stack())\n\t\t}\n\t}()\n")
